@@ -564,6 +564,8 @@ func parseDuration(v string) (d time.Duration, neg bool, ok bool) {
 	return d, m[1] == "-", ok
 }
 
+const oodExdateList = "EXDATE property holding a list of values"
+
 // --- recurrence: the bounded family FREQ=DAILY|WEEKLY;COUNT=n[;INTERVAL=k] ----
 
 type recRule struct {
@@ -627,6 +629,9 @@ type evInterval struct {
 	// DTSTART with TZID): instance k starts k steps of whole days later at
 	// the same local time, whatever the UTC offset is by then.
 	wall *time.Location
+	// excluded: instance starts taken out by EXDATE (an occurrence removed by
+	// an exception date is not an instance)
+	excluded map[int64]bool
 }
 
 func propsNamed(c Comp, name string) []Prop {
@@ -646,8 +651,12 @@ func eventInterval(c Comp, z *time.Location) (evInterval, string) {
 	for _, p := range c.Props {
 		up := asciiFold(p.Name)
 		switch up {
-		case "recurrence-id", "exdate", "rdate", "exrule":
-			return iv, "VEVENT with RECURRENCE-ID / EXDATE / RDATE / EXRULE under a time-range"
+		case "recurrence-id", "rdate", "exrule":
+			return iv, "VEVENT with RECURRENCE-ID / RDATE / EXRULE under a time-range"
+		case "exdate":
+			if p.Name != "EXDATE" {
+				return iv, "lower-case spelling of a time property"
+			}
 		case "dtstart", "dtend", "duration", "rrule":
 			if p.Name != strings.ToUpper(p.Name) {
 				return iv, "lower-case spelling of a time property"
@@ -763,6 +772,40 @@ func eventInterval(c Comp, z *time.Location) (evInterval, string) {
 			return iv, "recurrence outside the bounded family (DTSTART neither UTC nor TZID)"
 		}
 	}
+	if exs := propsNamed(c, "EXDATE"); len(exs) > 0 {
+		// Bounded family: UTC DATE-TIME exception dates on a recurring event
+		// with a UTC DTSTART; each must name the start of an instance.
+		if iv.rec == nil || iv.wall != nil || st.spelling != "utc" {
+			return iv, "EXDATE outside the bounded family (needs a recurring event with a UTC DTSTART)"
+		}
+		starts := map[int64]bool{}
+		for _, in := range iv.instances() {
+			starts[in[0].Unix()] = true
+		}
+		iv.excluded = map[int64]bool{}
+		for _, ex := range exs {
+			if len(ex.Params) > 0 {
+				return iv, "EXDATE with parameters"
+			}
+			if strings.Contains(ex.Value, ",") {
+				// RFC 5545 3.8.5.1 allows a list; the pinned go-ical cannot
+				// read one (Match fails with "error parsing exdate"): no
+				// verdict is demanded here, the failure is reported on its
+				// own under one key (c06.go).
+				return iv, oodExdateList
+			}
+			for _, v := range strings.Split(ex.Value, ",") {
+				t, err := time.Parse("20060102T150405Z", v)
+				if err != nil {
+					return iv, "EXDATE value that is not a UTC DATE-TIME"
+				}
+				if !starts[t.Unix()] {
+					return iv, "EXDATE that names no instance start"
+				}
+				iv.excluded[t.Unix()] = true
+			}
+		}
+	}
 	return iv, ""
 }
 
@@ -779,6 +822,9 @@ func (iv evInterval) instances() [][2]time.Time {
 			l := iv.S.In(iv.wall)
 			days := k * int(iv.rec.step/(24*time.Hour))
 			s = time.Date(l.Year(), l.Month(), l.Day()+days, l.Hour(), l.Minute(), l.Second(), 0, iv.wall)
+		}
+		if iv.excluded[s.Unix()] {
+			continue
 		}
 		out = append(out, [2]time.Time{s, s.Add(d)})
 	}
